@@ -6,10 +6,12 @@ the connection's own record of its parameters equals the bytes it sent.
 Property theorems only (helpers: Uquic/Proofs/Limits.lean, Uquic/Proofs/LimitsWire.lean). Model:
 Uquic/Model/UQuic/Limits.lean (`advertised`, `enforced`, `LimitsCovered`, `PeerEvent.within/fires`).
 
-STATE OF THE CODE (after the repair fixes/C12-enforce-advertised.diff + fixes/C12-record-max-udp-payload-size.diff):
+STATE OF THE CODE (after the repairs fixes/C12-enforce-advertised.diff, fixes/C12-record-max-udp-payload-size.diff,
+/repo ad4f2a6 and fixes/C12-window-above-advertised-stalls.diff = /repo c32d004):
 newUClientConnection recomputes its Config from the advertised transport parameters before preSetup (generated
 shape fact `specConfigCoversAdvertised = true`), so the full statement holds for every spec that lists a
-max_idle_timeout (`no_error_within_advertised`), for every user Config.
+max_idle_timeout (`no_error_within_advertised`), for every user Config. The stream counts, the connection window
+and the per-kind stream windows are EXACTLY the advertised ones (module `Uquic.Props.C12Glue`).
 -/
 import Uquic.Proofs.Limits
 import Uquic.Proofs.LimitsWire
@@ -55,18 +57,23 @@ theorem spec_client_covered_after_repair (h : Limits.specConfigCoversAdvertised 
     (ps : ParamList) (user : Config) (hidle : 0 < (populate ps).maxIdleTimeout) : SpecCovered ps user := by
   unfold SpecCovered specAdvertised specEnforced specConfig
   rw [h, if_pos rfl]
-  exact cover_config_covers _ _ hidle
+  refine cover_config_covers _ _ _ ?_ hidle
+  unfold specStreamAdv
+  split
+  · exact Or.inr rfl
+  · exact Or.inl rfl
 
 /-- e.g. the Chrome 115 list against the default Config, recomputed -/
 example : LimitsCovered (advertised (populate Limits.specParams_QUICChrome_115_IPv4))
     (enforced (coverConfig (populateConfig {}) (populate Limits.specParams_QUICChrome_115_IPv4))
+      (some (populate Limits.specParams_QUICChrome_115_IPv4))
       (populate Limits.specParams_QUICChrome_115_IPv4).activeConnectionIDLimit) := by decide
 
 /-- the repair function itself covers, whatever the shape fact says -/
-theorem cover_config_no_error (c : Config) (p : OwnParams) (hidle : 0 < p.maxIdleTimeout)
-    (evs : List PeerEvent) (hw : ∀ ev ∈ evs, ev.within (advertised p)) :
-    ∀ ev ∈ evs, ev.fires (enforced (coverConfig c p) p.activeConnectionIDLimit) = false :=
-  no_error_within_advertised_partial _ _ (cover_config_covers c p hidle) evs hw
+theorem cover_config_no_error (c : Config) (p : OwnParams) (adv : Option OwnParams) (hadv : adv = none ∨ adv = some p)
+    (hidle : 0 < p.maxIdleTimeout) (evs : List PeerEvent) (hw : ∀ ev ∈ evs, ev.within (advertised p)) :
+    ∀ ev ∈ evs, ev.fires (enforced (coverConfig c p) adv p.activeConnectionIDLimit) = false :=
+  no_error_within_advertised_partial _ _ (cover_config_covers c p adv hadv hidle) evs hw
 
 /-- FULL statement (for specs that list a max_idle_timeout, as every built-in one does): for every user Config
     and every peer history within what the client advertised, none of the client's enforcing checks fires. -/
